@@ -431,7 +431,27 @@ impl Property for C15 {
         }
         let mut spend = parse_fresh(&r)?;
         let mut txin = spend.get_input(idx).ok_or_else(|| failure("get_input", "None", "Some"))?;
-        txin.set_unlocking_script(&script_from_els(&unlock));
+        // plain P2PKH spends are assembled through the address API (get_locking_script / get_unlocking_script)
+        let mut unlock_script = script_from_els(&unlock);
+        let mut lock_final = lock_final;
+        if c.kind % 3 == 1 && c.codeseps.is_empty() && !c.verify_form && !mutated {
+            let pk = bsv::PublicKey::from_bytes(&key_bytes[0]).map_err(|e| failure("public_from_bytes", e.to_string(), "Ok"))?;
+            let addr = pk.to_p2pkh_address().map_err(|e| failure("to_p2pkh_address", e.to_string(), "Ok"))?;
+            let ls = lib_call("get_locking_script", || addr.get_locking_script())?.map_err(|e| failure("get_locking_script", e.to_string(), "Ok"))?;
+            if ls.to_bytes() != lock_final.to_bytes() {
+                return Err(failure("address_locking_script", short_hex(&ls.to_bytes()), short_hex(&lock_final.to_bytes())));
+            }
+            let flag = *sigs[0].last().unwrap();
+            let ss = bsv::SighashSignature::from_bytes(&sigs[0], &[]).map_err(|e| failure("sighash_signature_from_bytes", format!("Err({}) flag {:#x}", e, flag), "Ok"))?;
+            let us = lib_call("get_unlocking_script", || addr.get_unlocking_script(&pk, &ss))?.map_err(|e| failure("get_unlocking_script", e.to_string(), "Ok"))?;
+            if us.to_bytes() != unlock_script.to_bytes() {
+                return Err(failure("address_unlocking_script", short_hex(&us.to_bytes()), short_hex(&unlock_script.to_bytes())));
+            }
+            unlock_script = us;
+            lock_final = ls;
+            o.label("p2pkh-via-address-api");
+        }
+        txin.set_unlocking_script(&unlock_script);
         txin.set_locking_script(&lock_final);
         txin.set_satoshis(value);
         spend.set_input(idx, &txin);
